@@ -49,6 +49,109 @@ def gen_mixed(rng):
         cfg["iat"] = [rng.choice([1, 2]) for _ in range(rng.randrange(1, 3))]     # a space request is always waiting when the entry slot frees
     return cfg
 
+def gen_construct(rng):
+    """a factory assembled by the library's own builders (constructs/mesh.py, constructs/chain.py): the wiring they produce is part of
+    the model, so it has to be the same in every interpreter (C19), the model has to run (C20) and conserve its items (C03)"""
+    kind = rng.choice(["mesh_ss", "mesh_ss", "mesh", "chain"])
+    rows, cols = rng.choice([(2, 2), (2, 3), (3, 2), (3, 3)])
+    pol = lambda: rng.choice(["FIRST_AVAILABLE", "ROUND_ROBIN", "ROUND_ROBIN", "RANDOM", 0])
+    n = rows * cols if kind != "chain" else rng.choice([2, 3, 4])
+    return dict(construct=kind, rows=rows, cols=cols, count=n, edges=[],
+                node=[dict(pd=[rng.choice([0, 1, 2, 3]) for _ in range(rng.randrange(1, 3))], wc=rng.choice([1, 1, 2]),
+                           blocking=rng.random() < 0.8, inp=pol(), out=pol()) for _ in range(n)],
+                cap=rng.choice([1, 2, 3]), delay=rng.choice([0, 0, 1]),
+                iat=[rng.choice([1, 1, 2]) for _ in range(rng.randrange(1, 3))], src_out=pol(), src_blocking=rng.random() < 0.8,
+                horizon=rng.choice([40, 60, 80]), rseed=rng.randrange(10 ** 6), second_source=False)
+
+def build_and_run_construct(cfg):
+    quiet()
+    import random as _r
+    _r.seed(cfg["rseed"])
+    from factorysimpy.nodes.source import Source
+    from factorysimpy.nodes.sink import Sink
+    from factorysimpy.nodes.machine import Machine
+    from factorysimpy.edges.buffer import Buffer
+    from factorysimpy.constructs import mesh as _mesh, chain as _chain
+    env = simpy.Environment()
+    log = []
+    def tt(x):
+        t = f2t(x)
+        return t if t is not None else repr(x)
+    def cyc(lst):
+        st = {"i": 0}
+        def f():
+            v = lst[st["i"] % len(lst)]; st["i"] += 1; return t2f(v)
+        return f
+    def nk(d): return dict(work_capacity=d["wc"], processing_delay=cyc(d["pd"]), blocking=d["blocking"],
+                           in_edge_selection=d["inp"], out_edge_selection=d["out"])
+    ek = dict(capacity=cfg["cap"], delay=t2f(cfg["delay"]))
+    sk = dict(inter_arrival_time=cyc(cfg["iat"]), blocking=cfg["src_blocking"], out_edge_selection=cfg["src_out"])
+    err = None; steps = 0
+    nodes = []; edges = []; src = sink = None
+    try:
+        if cfg["construct"] in ("mesh_ss", "mesh"):
+            R, C = cfg["rows"], cfg["cols"]
+            grid = [[nk(cfg["node"][r * C + c]) for c in range(C)] for r in range(R)]
+            if cfg["construct"] == "mesh_ss":
+                mn, ed, src, sink = _mesh.connect_mesh_with_source_sink(env, R, C, Machine, Buffer, node_kwargs_grid=grid, edge_kwargs=dict(ek),
+                                                                        source_cls=Source, sink_cls=Sink, source_kwargs=sk, sink_kwargs={})
+            else:
+                mn, ed = _mesh.connect_mesh(env, R, C, Machine, Buffer, node_kwargs_grid=grid, edge_kwargs=dict(ek))
+                src = Source(env, "Source", **sk); sink = Sink(env, "Sink")
+                for c in range(C):
+                    e = Buffer(env, f"B_SRC_{c}", **ek); e.connect(src, mn[0][c]); ed[("Source", mn[0][c].id)] = e
+                for c in range(C):
+                    e = Buffer(env, f"B_{c}_SINK", **ek); e.connect(mn[R - 1][c], sink); ed[(mn[R - 1][c].id, "Sink")] = e
+            nodes = [src] + [x for row in mn for x in row] + [sink]
+            edges = [ed[k] for k in sorted(ed, key=lambda k: (str(k[0]), str(k[1])))]
+        else:
+            ns, es, src, sink = _chain.connect_chain_with_source_sink(env, cfg["count"], Machine, Buffer,
+                                                                      node_kwargs_list=[nk(d) for d in cfg["node"]], edge_kwargs=dict(ek),
+                                                                      source_cls=Source, sink_cls=Sink, source_kwargs=sk, sink_kwargs={})
+            _chain.connect_nodes_with_buffers(ns, es, src, sink)
+            nodes = list(ns); edges = list(es)
+        for e in edges:
+            op, og = e.put, e.get
+            def put(ev, item, _op=op, _i=str(e.id)):
+                r = _op(ev, item); log.append((tt(env.now), _i, "put", str(item.id))); return r
+            def get(ev, _og=og, _i=str(e.id)):
+                it = _og(ev); log.append((tt(env.now), _i, "get", str(it.id))); return it
+            e.put, e.get = put, get
+            st = getattr(e, "inbuiltstore", None)
+            if st is not None:
+                sg = st.get
+                def sget(ev, _sg=sg, _i=str(e.id)):
+                    it = _sg(ev); log.append((tt(env.now), _i, "sget", str(getattr(it, "id", it)))); return it
+                st.get = sget
+        T = t2f(cfg["horizon"]); last_t = -1; same = 0
+        while env._queue and env.peek() < T:
+            t = env.peek()
+            same = same + 1 if t == last_t else 0
+            last_t = t
+            if same > 20000: err = "livelock"; break
+            env.step(); steps += 1
+    except Exception as ex:
+        err = f"{type(ex).__name__}: {str(ex)[:100]}"
+    def occ(e):
+        for name in ("occupancy", "get_occupancy", "belt_occupancy"):
+            f = getattr(e, name, None)
+            if f is not None:
+                try: return int(f())
+                except Exception: pass
+        return None
+    ms = [n for n in nodes if type(n).__name__ == "Machine"]
+    stats = dict(generated=src.stats["num_item_generated"] if src is not None else 0,
+                 src_discarded=src.stats["num_item_discarded"] if src is not None else 0,
+                 processed=[m.stats["num_item_processed"] for m in ms], discarded=[m.stats["num_item_discarded"] for m in ms],
+                 received=sink.stats["num_item_received"] if sink is not None else 0, occ=[occ(e) for e in edges],
+                 held=[len(getattr(m, "worker_thread_list", []) or []) for m in ms], steps=steps,
+                 # the wiring the builder produced: the order of every node's edge lists decides what an index / FIRST_AVAILABLE / ROUND_ROBIN means
+                 wiring={str(n.id): [[str(e.id) for e in (getattr(n, "in_edges", None) or [])], [str(e.id) for e in (getattr(n, "out_edges", None) or [])]] for n in nodes},
+                 node_stats={str(n.id): _statrepr(getattr(n, "stats", None)) for n in nodes},
+                 edge_stats={str(e.id): _statrepr(getattr(e, "stats", None)) for e in edges})
+    return dict(log=log, stats=stats, error=err)
+
+
 def _statrepr(x):
     if isinstance(x, dict): return "{" + ", ".join(f"{k!r}: {_statrepr(x[k])}" for k in sorted(x, key=repr)) + "}"
     if isinstance(x, (list, tuple)): return "[" + ", ".join(_statrepr(y) for y in x) + "]"
@@ -56,6 +159,7 @@ def _statrepr(x):
 
 def build_and_run(cfg):
     """returns dict(log=[...], stats={...}, error=None|str)"""
+    if cfg.get("construct"): return build_and_run_construct(cfg)
     quiet()
     import random as _r
     _r.seed(cfg["rseed"])
@@ -245,7 +349,8 @@ def digest(r):
 
 def configs(seed, n):
     rng = random.Random(seed * 9176 + 3)
-    return [gen_mixed(rng) for _ in range(n)]
+    # every fifth factory is assembled by the library's own builders (constructs/)
+    return [gen_construct(rng) if i % 5 == 4 else gen_mixed(rng) for i in range(n)]
 
 def emit(seed, n):
     for cfg in configs(seed, n):
